@@ -57,7 +57,7 @@ let runclass_of (s : string) : runclass =
 
 (* a provider cell. [sz] = None: case kind `cell`; Some (maxammosize, sizes of the entries' lines):
    case kind `sized` (Model/ProviderScan.v run_file_sz / spec_sz) *)
-let predict_cell kind pre lim pas n cons cancel rest (sz : (n * n list) option) (obs : string) : string * string * bool =
+let predict_cell ?(chosen = []) kind pre lim pas n cons cancel rest (sz : (n * n list) option) (obs : string) : string * string * bool =
       let fs = (match rest with [_eof; "1"] -> FsOS | _ -> FsMem) in
       let run k cf es c fuel =
         (match sz with
@@ -66,7 +66,9 @@ let predict_cell kind pre lim pas n cons cancel rest (sz : (n * n list) option) 
       let n = int_of_string n and lim = int_of_string lim and pas = int_of_string pas in
       let cons = int_of_string cons in
       let es = List.init n (fun i -> { e_tag = nat_of_int i; e_id = nat_of_int i }) in
-      let cf = { limit = nat_of_int lim; passes = nat_of_int pas; chosen = [] } in
+      let cf = { limit = nat_of_int lim; passes = nat_of_int pas; chosen = List.map nat_of_int chosen } in
+      (* with a chosencases filter the bounds count what is delivered: C08 is judged on the matching entries *)
+      let es_spec = List.filter (fun e -> is_chosen e.e_tag cf.chosen) es in
       let k = kind_of kind (pre = "1") in
       let sorted = cons > 1 in
       let ocount, oseq, oafter, orun =
@@ -82,7 +84,7 @@ let predict_cell kind pre lim pas n cons cancel rest (sz : (n * n list) option) 
         let s = render sorted fr in
         if deadline then Str.global_replace (Str.regexp_string " canceled ") " deadline " s else s in
       let cancel_m = if cancel = "-" then None else if cancel = "pre" then Some 0 else Some (int_of_string cancel) in
-      let bnd = (match bound cf.limit cf.passes (nat_of_int n) with Some b -> Some (int_of_nat b) | None -> None) in
+      let bnd = (match bound cf.limit cf.passes (nat_of_int (List.length es_spec)) with Some b -> Some (int_of_nat b) | None -> None) in
       (* every model needs at most 3 steps per delivery plus 2n+6 (proved: c08_spec); 50x margin *)
       let fuel = nat_of_int (50 * ((max ocount (match bnd with Some b -> b | None -> 0)) + n + 2)) in
       (* model: the context is seen cancelled once [ocount] items were sent, or not at all *)
@@ -92,7 +94,7 @@ let predict_cell kind pre lim pas n cons cancel rest (sz : (n * n list) option) 
          | None -> render sorted (run k cf es None fuel)
          | Some _ ->
              let p_c = render sorted (run k cf es (Some (nat_of_int ocount)) fuel) in
-             if bnd = None && n > 0 then p_c
+             if bnd = None && es_spec <> [] then p_c   (* the run that is not cancelled never ends *)
              else begin
                let p_none = render sorted (run k cf es None fuel) in
                if p_none = obs then p_none else p_c
@@ -100,7 +102,7 @@ let predict_cell kind pre lim pas n cons cancel rest (sz : (n * n list) option) 
       let cm = (match cancel_m with None -> None | Some m -> Some (nat_of_int m)) in
       let ok =
         (match sz with
-         | None -> spec_b cf.limit cf.passes es cm
+         | None -> spec_b cf.limit cf.passes es_spec cm
                      (not sorted) (List.map nat_of_int obs_ids) (oafter = "closed") (runclass_of orun)
          | Some (mx, szs) -> spec_sz k mx szs cf.limit cf.passes es cm
                      (not sorted) (List.map nat_of_int obs_ids) (oafter = "closed") (runclass_of orun)) in
@@ -116,6 +118,28 @@ let predict (c : string) (obs : string) : string * string * bool =
   match split_blank c with
   | "cell" :: kind :: pre :: lim :: pas :: n :: cons :: cancel :: rest ->   (* the EOF layout does not change the entries *)
       predict_cell kind pre lim pas n cons cancel rest None obs
+  | ["chosen"; kind; pre; lim; pas; n; cons; cancel; eof; fs; mask] ->
+      let chosen = if mask = "-" then [] else List.map int_of_string (String.split_on_char ',' mask) in
+      predict_cell ~chosen kind pre lim pas n cons cancel [eof; fs] None obs
+  | ["dec"; kind; lim; pas; n; _eof] ->
+      let n = int_of_string n and lim = int_of_string lim and pas = int_of_string pas in
+      let es = List.init n (fun i -> { e_tag = nat_of_int i; e_id = nat_of_int i }) in
+      let dk = (match kind_of kind false with KHttp (d, _) -> d | _ -> failwith "kind") in
+      let max = lim + pas * n + 3 * n + 5 in
+      (* at most 3 steps per item (proved contracts) *)
+      let fuel_for m = nat_of_int (4 * (m + n + 2)) in
+      let rec take m l = if m = 0 then [] else (match l with [] -> [] | x :: r -> x :: take (m - 1) r) in
+      let (l, e) = dec_run dk (nat_of_int lim) (nat_of_int pas) es (fuel_for max) dinit in
+      let l = take max (List.map int_of_nat (ids l)) in
+      let ecl = if List.length l >= max then "-" else (match e with Some e -> err_class e | None -> "hang") in
+      let pred = Printf.sprintf "%d %s %s" (List.length l) (seq_string l) ecl in
+      let ocount, oseq, oerr =
+        (match split_blank obs with [a; b; c] -> (int_of_string a, b, c) | _ -> (0, "-", "?")) in
+      let obs_ids = if oseq = "-" then [] else List.map int_of_string (String.split_on_char ',' oseq) in
+      let ok = spec_dec (nat_of_int lim) (nat_of_int pas) es (nat_of_int max) (List.map nat_of_int obs_ids)
+          (oerr = "err:limit" || oerr = "err:passes") (oerr <> "-") in
+      (pred, verdict (ocount = List.length obs_ids && ok)
+         "want the cyclic prefix of length min of the non-zero bounds, then ErrAmmoLimit / ErrPassLimit", lim > 0 || pas > 0)
   | ["sized"; kind; pre; lim; pas; n; cons; cancel; eof; fs; maxsz; _pads; sizes] ->
       (* sizes: length of the longest line of each entry as rendered (what a line scanner must hold) *)
       let szs = List.map n_of_string (String.split_on_char ',' sizes) in
